@@ -232,6 +232,7 @@ func TestC16(t *testing.T) {
 		upd := func(name string, rp *pubsubpb.RetryPolicy) *pubsubpb.UpdateSubscriptionRequest {
 			return &pubsubpb.UpdateSubscriptionRequest{Subscription: &pubsubpb.Subscription{Name: "projects/p/subscriptions/push-" + name, RetryPolicy: rp}, UpdateMask: &fieldmaskpb.FieldMask{Paths: []string{"retry_policy"}}}
 		}
+		modifies := map[string]string{}
 		cases := []pushCase{
 			{"min-1ns", mk("min-1ns", &pubsubpb.RetryPolicy{MinimumBackoff: dur(1)}), nil},
 			{"min-3ns", mk("min-3ns", &pubsubpb.RetryPolicy{MinimumBackoff: dur(3)}), nil},
@@ -243,10 +244,19 @@ func TestC16(t *testing.T) {
 			{"huge", mk("huge", &pubsubpb.RetryPolicy{MinimumBackoff: dur(1 << 62), MaximumBackoff: dur(1 << 62)}), nil},
 		}
 		// endpoints the pusher cannot even build a request for
-		for k, bad := range []string{"%%%", "http://[::1", "http://127.0.0.1:1/\x7f", "HTTP://127.0.0.1:1", "://", "http://user:pa ss@127.0.0.1:1/", "mailto:x@y"} {
+		for k, bad := range []string{" ", "\t\n", "  \u00a0 ", "%%%", "http://[::1", "http://127.0.0.1:1/\x7f", "HTTP://127.0.0.1:1", "://", "http://user:pa ss@127.0.0.1:1/", "mailto:x@y"} {
 			c := mk(fmt.Sprintf("endpoint-%d", k), nil)
 			c.PushConfig.PushEndpoint = bad
 			cases = append(cases, pushCase{fmt.Sprintf("endpoint-%d", k), c, nil})
+		}
+		// the same endpoints arriving through the two RPCs that change an existing
+		// subscription's push configuration
+		for k, bad := range []string{" ", "\t\n", "http://[::1"} {
+			nm := fmt.Sprintf("modify-%d", k)
+			c := mk(nm, nil)
+			c.PushConfig = nil
+			cases = append(cases, pushCase{nm, c, nil})
+			modifies[nm] = bad
 		}
 		for _, pc := range cases {
 			line, _ := json.Marshal(map[string]any{"push": pc.name})
@@ -259,6 +269,14 @@ func TestC16(t *testing.T) {
 				srv.api.Pub.Publish(c, &pubsubpb.PublishRequest{Topic: w.Topic, Messages: []*pubsubpb.PubsubMessage{{Data: []byte(`{"p":1}`)}}})
 			}
 			var uerr error
+			if bad, ok := modifies[pc.name]; ok && cerr == nil {
+				time.Sleep(200 * time.Millisecond)
+				if strings.HasSuffix(pc.name, "1") {
+					_, uerr = srv.api.Sub.UpdateSubscription(c, &pubsubpb.UpdateSubscriptionRequest{Subscription: &pubsubpb.Subscription{Name: pc.create.Name, PushConfig: &pubsubpb.PushConfig{PushEndpoint: bad}}, UpdateMask: &fieldmaskpb.FieldMask{Paths: []string{"push_config"}}})
+				} else {
+					_, uerr = srv.api.Sub.ModifyPushConfig(c, &pubsubpb.ModifyPushConfigRequest{Subscription: pc.create.Name, PushConfig: &pubsubpb.PushConfig{PushEndpoint: bad}})
+				}
+			}
 			if pc.update != nil && cerr == nil {
 				time.Sleep(300 * time.Millisecond)
 				_, uerr = srv.api.Sub.UpdateSubscription(c, pc.update)
